@@ -470,8 +470,29 @@ func c09Tsig(w *core.W, j int) {
 	}
 }
 
+// c09OtherSigned: only a TSIG record exempts a reply. One that ends in another kind of signature record - a
+// SIG(0) (SIG with type covered 0), an RRSIG, a KEY - is truncated like any other.
+func c09OtherSigned(w *core.W, j int) {
+	g := model.NewGen(w.Rng(j))
+	g.NoHuge = true
+	g.MaxOpaque = 64
+	mm := genCommonMsg(g, 20+g.R.IntN(40), g.R.IntN(2) == 0)
+	last := g.Rec(model.Layouts[[]uint16{24, 24, 46, 25}[j%4]])
+	if i := last.L.FieldIndex("TypeCovered"); i >= 0 && j%4 < 2 {
+		last.Vals[i] = uint64(0) // SIG(0)
+	}
+	last.Owner, last.Class, last.TTL = model.Name{}, 255, 0
+	last.Fixup()
+	mm.Ar = append(mm.Ar, last)
+	w.Count("replies_ending_in_another_signature_record", 1)
+	for _, size := range []int{0, 512, 600, 1232} {
+		c09One(w, mm, size, false, "ends-in-"+last.L.Name)
+	}
+}
+
 func init() {
 	plan, run := sections(
+		section{"other-signed", tiered(40, 1000), c09OtherSigned},
 		section{"common", tiered(700, 30000), func(w *core.W, j int) { c09Run(w, j, true) }},
 		section{"general", tiered(500, 20000), func(w *core.W, j int) { c09Run(w, j, false) }},
 		section{"tsig", tiered(100, 2000), c09Tsig},
